@@ -17,11 +17,18 @@ package table
 import (
 	"bytes"
 	"encoding/binary"
+	"errors"
+	"io"
+	"math"
 
 	"github.com/B1NARY-GR0UP/originium/pkg/bufferpool"
 	"github.com/B1NARY-GR0UP/originium/types"
 	"github.com/B1NARY-GR0UP/originium/utils"
 )
+
+// ErrKeyTooLarge is returned by the encoders for a key whose length does not
+// fit the 16-bit length fields of the table format.
+var ErrKeyTooLarge = errors.New("key too large for the table format")
 
 // Data Block
 type Data struct {
@@ -94,6 +101,12 @@ func (d *Data) Encode() ([]byte, error) {
 	w := utils.NewErrorWriter(buf)
 	var prevKey string
 	for _, entry := range d.Entries {
+		// key lengths are stored in 16 bits: refuse what cannot be represented
+		// instead of silently truncating it
+		if len(entry.Key) > math.MaxUint16 {
+			return nil, ErrKeyTooLarge
+		}
+
 		lcp := utils.LCP(entry.Key, prevKey)
 		suffix := entry.Key[lcp:]
 
@@ -106,8 +119,8 @@ func (d *Data) Encode() ([]byte, error) {
 		// suffix
 		w.Write(binary.LittleEndian, []byte(suffix))
 
-		// value length
-		w.Write(binary.LittleEndian, uint16(len(entry.Value)))
+		// value length (32 bits: values of 64 KiB and more are legal)
+		w.Write(binary.LittleEndian, uint32(len(entry.Value)))
 
 		// value
 		w.Write(binary.LittleEndian, entry.Value)
@@ -166,8 +179,11 @@ func (d *Data) Decode(data []byte) error {
 		r.Read(binary.LittleEndian, &suffix)
 
 		// value length
-		var valueLen uint16
+		var valueLen uint32
 		r.Read(binary.LittleEndian, &valueLen)
+		if int64(valueLen) > int64(reader.Len()) {
+			return io.ErrUnexpectedEOF
+		}
 
 		// value
 		value := make([]byte, valueLen)
